@@ -463,10 +463,10 @@ def expected : Outcome → Bool
          .expr (.call 30 (some ⟨30, _⟩) [.id ⟨30, _⟩] (some ⟨30, _⟩)), .empty 0,
          .expr (.call 30 (some ⟨30, _⟩) [] none), .empty 0,
          .varDecl 31 [(1, [⟨31, _⟩], .new 31 (some ⟨31, _⟩) [.id ⟨31, _⟩])],
-         .expr (.assign 32 (.member 0 1 (.id ⟨32, _⟩) 1 (some ⟨32, _⟩) .nil) (.member 32 1 (.id ⟨32, _⟩) 2 none (.id ⟨32, _⟩))),
+         .expr (.assign 32 (.member 32 1 (.id ⟨32, _⟩) 1 (some ⟨32, _⟩) .nil) (.member 32 1 (.id ⟨32, _⟩) 2 none (.id ⟨32, _⟩))),
          .expr (.assign 33 (.member 33 1 (.id ⟨33, _⟩) 2 none (.str 33 _))
            (.member 33 1 (.id ⟨33, _⟩) 2 none (.arith 33 12 (.id ⟨33, _⟩) (.id ⟨33, _⟩)))),
-         .expr (.assign 34 (.member 0 2 .nil 1 (some ⟨34, _⟩) .nil) (.arr 34 [.id ⟨34, _⟩, .id ⟨34, _⟩, .id ⟨35, _⟩])),
+         .expr (.assign 34 (.member 34 2 .nil 1 (some ⟨34, _⟩) .nil) (.arr 34 [.id ⟨34, _⟩, .id ⟨34, _⟩, .id ⟨35, _⟩])),
          .expr (.assign 36 (.id ⟨36, _⟩) (.hm 36 [(.id ⟨36, _⟩, .id ⟨36, _⟩), (.id ⟨36, _⟩, .id ⟨36, _⟩)])),
          .varDecl 37 [(1, [⟨37, _⟩], .arr 37 [])],
          .varDecl 38 [(1, [⟨38, _⟩], .hm 38 [])],
